@@ -259,3 +259,207 @@ func c13WholeTree(c *core.Ctx, k *tkit) {
 	c.Cover("insertion_sequences", nseq)
 	c.Check(bad == "", rC13Whole, ins.Name, ins.Decl.Pos(), fmt.Sprintf("%d insertion sequences: answers of a set of intervals, tree invariants kept", nseq), bad)
 }
+
+const rC13Store = "ORDABS.store-queries"
+
+// c13StoreQueries: the temporal store as a whole - NewTemporalStore, Add, GetFactsAt, GetFactsDuring, ContainsAt,
+// GetAllFacts and EstimateFactCount with the real interval tree below them, all read from source - on every
+// sequence of three insertions of (atom, interval) pairs over two atoms and four intervals: the answers are those
+// of the set of stored pairs under the closed-interval meaning. This decides, by its effect, that the store hands
+// the query instant / the query range's own bounds to the tree and the matching atoms to the caller.
+func c13StoreQueries(c *core.Ctx, k *tkit) {
+	c.Rule(rC13Store, "NewTemporalStore, TemporalStore.Add, GetFactsAt, GetFactsDuring, ContainsAt, GetAllFacts and EstimateFactCount, read from source with the interval tree below them, evaluated on every sequence of three insertions over two atoms and four intervals (one unbounded to the left): an exact duplicate is refused, a point query yields exactly the stored pairs whose closed interval contains the instant, a range query exactly those intersecting the range (for an all-variable and for a constant query atom), ContainsAt agrees with them, the full scan yields every pair once and the count is their number", 1)
+	ctor := c.MustFunc(rC13Store, "factstore", "NewTemporalStore")
+	add := c.MustFunc(rC13Store, "factstore", "TemporalStore.Add")
+	at := c.MustFunc(rC13Store, "factstore", "TemporalStore.GetFactsAt")
+	during := c.MustFunc(rC13Store, "factstore", "TemporalStore.GetFactsDuring")
+	contains := c.MustFunc(rC13Store, "factstore", "TemporalStore.ContainsAt")
+	all := c.MustFunc(rC13Store, "factstore", "TemporalStore.GetAllFacts")
+	cnt := c.MustFunc(rC13Store, "factstore", "TemporalStore.EstimateFactCount")
+	if ctor == nil || add == nil || at == nil || during == nil || contains == nil || all == nil || cnt == nil {
+		return
+	}
+	ak := &astKit{c: c, ok: true}
+	ck := newConstKit(c, rC13Store)
+	if !ck.ok {
+		return
+	}
+	r := newStoreRig(c, ak, ck, storeImpl{"TemporalStore", "NewTemporalStore"}, false)
+	r.in.InstallTimeStubs()
+	r.in.Globals = map[string]ordabs.Value{"factstore.ErrIntervalLimitExceeded": ordabs.ErrVal{Tag: "ErrIntervalLimitExceeded"}}
+	const lo, hi = int64(-1 << 63), int64(1<<63 - 1)
+	type iv struct{ st, s, et, e int64 }
+	ivs := []iv{{k.TS, 0, k.TS, 1}, {k.TS, 1, k.TS, 3}, {k.TS, 2, k.TS, 2}, {k.NEG, 0, k.TS, 1}}
+	low := func(x iv) int64 {
+		if x.st == k.NEG {
+			return lo
+		}
+		return x.s
+	}
+	atoms := []*ordabs.Rec{r.mkAtom("p", 1), r.mkAtom("p", 2)}
+	type pair struct {
+		a int
+		x iv
+	}
+	var univ []pair
+	for a := range atoms {
+		for _, x := range ivs {
+			univ = append(univ, pair{a, x})
+		}
+	}
+	nameOf := func(p pair) string {
+		l := fmt.Sprint(p.x.s)
+		if p.x.st == k.NEG {
+			l = "-inf"
+		}
+		return fmt.Sprintf("p(%d)@[%s,%d]", p.a+1, l, p.x.e)
+	}
+	var got []string
+	cb := &ordabs.Stub{Name: "cb", Fn: func(in *ordabs.Interp, a []ordabs.Value) ([]ordabs.Value, error) {
+		tf, _ := a[0].(*ordabs.Rec)
+		if tf == nil {
+			got = append(got, "?")
+			return []ordabs.Value{nil}, nil
+		}
+		f, _ := recInterval(k, tf.Fields["Interval"])
+		l := fmt.Sprint(f.s)
+		if f.st == k.NEG {
+			l = "-inf"
+		}
+		got = append(got, fmt.Sprintf("%s@[%s,%d]", atomKey(tf.Fields["Atom"]), l, f.e))
+		return []ordabs.Value{nil}, nil
+	}}
+	bad, nseq := "", 0
+	fail := func(f *core.Func, err error) bool { return !runORD(c, rC13Store, f.Name, f, err) }
+	run := func(seq []int) bool {
+		empty := []ordabs.Value{}
+		r.in.Reset()
+		out, err := r.in.Call(ctor, nil, []ordabs.Value{&ordabs.Slice{Elems: &empty}})
+		if fail(ctor, err) {
+			return false
+		}
+		store := out[0]
+		model := map[string]pair{}
+		var desc []string
+		for _, i := range seq {
+			p := univ[i]
+			desc = append(desc, nameOf(p))
+			r.in.Reset()
+			r.in.Fuel = 400000
+			o, err := r.in.Call(add, store, []ordabs.Value{atoms[p.a], k.iv(p.x.st, p.x.s, p.x.et, p.x.e)})
+			if fail(add, err) {
+				return false
+			}
+			_, dup := model[nameOf(p)]
+			if added, _ := o[0].(bool); (added == dup || o[1] != nil) && bad == "" {
+				bad = fmt.Sprintf("adding %s: Add returned (%v, %v), want (%v, nil)", strings.Join(desc, ", "), o[0], o[1], !dup)
+			}
+			model[nameOf(p)] = p
+		}
+		nseq++
+		if bad != "" {
+			return true
+		}
+		d := strings.Join(desc, ", ")
+		want := func(pred func(pair) bool) string {
+			var w []string
+			for n, p := range model {
+				if pred(p) {
+					w = append(w, n)
+				}
+			}
+			sort.Strings(w)
+			return strings.Join(w, " ")
+		}
+		sorted := func() string { s := append([]string{}, got...); sort.Strings(s); return strings.Join(s, " ") }
+		queries := []struct {
+			q    *ordabs.Rec
+			name string
+			ok   func(pair) bool
+		}{{r.mkAtom("p", -1), "p(X)", func(pair) bool { return true }}, {r.mkAtom("p", 2), "p(2)", func(p pair) bool { return p.a == 1 }}}
+		r.in.Reset()
+		o, err := r.in.Call(cnt, store, nil)
+		if fail(cnt, err) {
+			return false
+		}
+		if n, _ := o[0].(int64); int(n) != len(model) {
+			bad = fmt.Sprintf("after adding %s: EstimateFactCount = %d, %d pairs are stored", d, n, len(model))
+			return true
+		}
+		for _, q := range queries {
+			got = nil
+			r.in.Reset()
+			r.in.Fuel = 400000
+			if _, err := r.in.Call(all, store, []ordabs.Value{q.q, cb}); fail(all, err) {
+				return false
+			}
+			if g, w := sorted(), want(q.ok); g != w {
+				bad = fmt.Sprintf("after adding %s: the full scan for %s yields {%s}, want {%s}", d, q.name, g, w)
+				return true
+			}
+			for t := int64(-1); t <= 4; t++ {
+				got = nil
+				r.in.Reset()
+				r.in.Fuel = 400000
+				if _, err := r.in.Call(at, store, []ordabs.Value{q.q, ordabs.TimeVal{NS: t}, cb}); fail(at, err) {
+					return false
+				}
+				if g, w := sorted(), want(func(p pair) bool { return q.ok(p) && low(p.x) <= t && t <= p.x.e }); g != w {
+					bad = fmt.Sprintf("after adding %s: the point query %s at %d yields {%s}, want {%s}", d, q.name, t, g, w)
+					return true
+				}
+			}
+			for s := int64(-1); s <= 4; s++ {
+				for e := s; e <= 4; e++ {
+					got = nil
+					r.in.Reset()
+					r.in.Fuel = 400000
+					if _, err := r.in.Call(during, store, []ordabs.Value{q.q, k.tsiv(s, e), cb}); fail(during, err) {
+						return false
+					}
+					if g, w := sorted(), want(func(p pair) bool { return q.ok(p) && low(p.x) <= e && s <= p.x.e }); g != w {
+						bad = fmt.Sprintf("after adding %s: the range query %s during [%d,%d] yields {%s}, want {%s}", d, q.name, s, e, g, w)
+						return true
+					}
+				}
+			}
+		}
+		for ai, a := range atoms {
+			for t := int64(-1); t <= 4; t++ {
+				r.in.Reset()
+				r.in.Fuel = 400000
+				o, err := r.in.Call(contains, store, []ordabs.Value{a, ordabs.TimeVal{NS: t}})
+				if fail(contains, err) {
+					return false
+				}
+				w := want(func(p pair) bool { return p.a == ai && low(p.x) <= t && t <= p.x.e }) != ""
+				if g, _ := o[0].(bool); g != w {
+					bad = fmt.Sprintf("after adding %s: ContainsAt(p(%d), %d) = %v, want %v", d, ai+1, t, g, w)
+					return true
+				}
+			}
+		}
+		return true
+	}
+	n := 3
+	seq := make([]int, n)
+	var rec func(i int) bool
+	rec = func(i int) bool {
+		if i == n {
+			return run(seq) && bad == ""
+		}
+		for x := range univ {
+			if c.Tier != "thorough" && i > 0 && x < seq[i-1]-4 {
+				continue // quick: skip part of the orders (the tree's own orders are covered by the tree family)
+			}
+			seq[i] = x
+			if !rec(i + 1) {
+				return false
+			}
+		}
+		return true
+	}
+	rec(0)
+	c.Cover("store_histories", nseq)
+	c.Check(bad == "", rC13Store, add.Name, add.Decl.Pos(), fmt.Sprintf("%d insertion histories answered by the pointwise meaning of intervals", nseq), bad)
+}
